@@ -176,7 +176,8 @@ Section Req2.
                \/ ok = true /\ exists n, r_cl s' = put_cl (r_cl s) n (next_uid (r_cl s)) /\ c_id n = i /\ c_owner n = ONone))
         \/ (exists ok m st, r_tr s' = IEv e :: IReq (RDelete i (c_uid c) (o_prop (sc_opts sc))) ok m st :: r_tr s /\
               ~ In (c_uid c) uids /\
-              (ok = false /\ r_cl s' = r_cl s \/ ok = true /\ r_cl s' = del_cl (r_cl s) i)) ).
+              (ok = false /\ r_cl s' = r_cl s \/ ok = true /\ r_cl s' = del_cl (r_cl s) i
+               \/ ok = true /\ r_cl s' = r_cl s /\ u_fin (uinfo_of sc i) = true)) ).
   Proof.
     cbv zeta. unfold prune_one. cbn [p_live pobj_of_live].
     assert (NOREQ : forall s1 e a u0, r_cl s1 = r_cl s -> r_tbl s1 = r_tbl s -> r_tr s1 = r_tr s ->
@@ -189,7 +190,8 @@ Section Req2.
                          \/ ok = true /\ exists n, r_cl s' = put_cl (r_cl s) n (next_uid (r_cl s)) /\ c_id n = c_id c /\ c_owner n = ONone))
                   \/ (exists ok m st, r_tr s' = IEv e :: IReq (RDelete (c_id c) (c_uid c) (o_prop (sc_opts sc))) ok m st :: r_tr s /\
                         ~ In (c_uid c) uids /\
-                        (ok = false /\ r_cl s' = r_cl s \/ ok = true /\ r_cl s' = del_cl (r_cl s) (c_id c))) )).
+                        (ok = false /\ r_cl s' = r_cl s \/ ok = true /\ r_cl s' = del_cl (r_cl s) (c_id c)
+                         \/ ok = true /\ r_cl s' = r_cl s /\ u_fin (uinfo_of sc (c_id c)) = true)) )).
     { intros s1 e a u0 E1 E2 E3. cbv zeta. exists a, u0, e. leaf. rewrite E1, E2, E3. split; [reflexivity|]. left. split; reflexivity. }
     destruct (prune_filters sc pl locals (r_tbl s) uids c) eqn:PF.
     - (* delete *)
@@ -199,7 +201,9 @@ Section Req2.
       { eexists _, _, _. split; [reflexivity|]. right; right. exists false. eexists _, _. split; [reflexivity|]. split; [exact NAL|]. left. split; reflexivity. }
       destruct (find_obj (objs (r_cl s)) (c_id c)) as [live|] eqn:EF; leaf.
       + destruct (N.eqb (c_uid live) (c_uid c)); leaf.
-        * eexists _, _, _. split; [reflexivity|]. right; right. exists true. eexists _, _. split; [reflexivity|]. split; [exact NAL|]. right. split; reflexivity.
+        * destruct (u_fin (uinfo_of sc (c_id c))) eqn:EU; leaf.
+          -- eexists _, _, _. split; [reflexivity|]. right; right. exists true. eexists _, _. split; [reflexivity|]. split; [exact NAL|]. right; right. repeat split; reflexivity.
+          -- eexists _, _, _. split; [reflexivity|]. right; right. exists true. eexists _, _. split; [reflexivity|]. split; [exact NAL|]. right; left. split; reflexivity.
         * eexists _, _, _. split; [reflexivity|]. right; right. exists false. eexists _, _. split; [reflexivity|]. split; [exact NAL|]. left. split; reflexivity.
       + eexists _, _, _. split; [reflexivity|]. right; right. exists false. eexists _, _. split; [reflexivity|]. split; [exact NAL|]. left. split; reflexivity.
     - (* deletion prevented *)
@@ -222,7 +226,8 @@ Section Req2.
                          \/ ok = true /\ exists n, r_cl s' = put_cl (r_cl s) n (next_uid (r_cl s)) /\ c_id n = c_id c /\ c_owner n = ONone))
                   \/ (exists ok m st, r_tr s' = IEv e :: IReq (RDelete (c_id c) (c_uid c) (o_prop (sc_opts sc))) ok m st :: r_tr s /\
                         ~ In (c_uid c) uids /\
-                        (ok = false /\ r_cl s' = r_cl s \/ ok = true /\ r_cl s' = del_cl (r_cl s) (c_id c))) )).
+                        (ok = false /\ r_cl s' = r_cl s \/ ok = true /\ r_cl s' = del_cl (r_cl s) (c_id c)
+                         \/ ok = true /\ r_cl s' = r_cl s /\ u_fin (uinfo_of sc (c_id c)) = true)) )).
       { cbv zeta. destruct (faulted sc (FUpdate (c_id c))); leaf.
         { eexists _, _, _. split; [reflexivity|]. right; left. exists false. eexists _, _. split; [reflexivity|]. left. split; reflexivity. }
         destruct (find_obj (objs (r_cl s)) (c_id c)); leaf.
@@ -474,7 +479,7 @@ Section T3.
         * cbn. rewrite EC. exact C1.
         * intros Ha c x Hc Hx. cbn in Hc, Hx. rewrite EC in Hc. eapply U1; eassumption.
         * intros _ x Hx Hn. change (findc (curS s1) i = Some x) in Hx. rewrite TVS.
-          pose proof (C1 i) as Ci. unfold id in *. destruct (find_obj (objs (r_cl s1)) i) as [c|] eqn:Ec; [|congruence].
+          pose proof (C1 i) as Ci. unfold id in *. rewrite Hx in Ci. destruct Ci as [c [u' [Ec _]]].
           destruct (U1 i c x Hin Ec Hx) as [E|E]; [|congruence]. rewrite E, (HU c Ec). reflexivity.
         * intros _. split; assumption.
       + (* accepted create *)
@@ -503,8 +508,8 @@ Section T3.
         assert (RP : replay_req sc (curS s1) (RPatch i b false) true = (i, OOurs, u0) :: dropc (curS s1) i) by reflexivity.
         assert (U0 : u0 <> 0%N -> exists c, fo (r_cl s1) i = Some c /\ u0 = c_uid c).
         { unfold u0. intros Hn. destruct (findc (curS s1) i) as [y|] eqn:Ey; [|congruence].
-          pose proof (C1 i) as Ci. unfold fo, id in *. destruct (find_obj (objs (r_cl s1)) i) as [c|] eqn:Ec; [|congruence].
-          exists c. split; [reflexivity|]. destruct (U1 i c y Hin Ec Ey) as [E|E]; [exact E|congruence]. }
+          pose proof (C1 i) as Ci. unfold fo, id in *. rewrite Ey in Ci. destruct Ci as [c [u' [Ec _]]].
+          exists c. split; [exact Ec|]. destruct (U1 i c y Hin Ec Ey) as [E|E]; [exact E|congruence]. }
         apply (Inv2_target sc c0 pl (i :: td) td s1 _ i (RPatch i b false) true m st [IEv (EApply g i AOk)] eq_refl); try assumption.
         * cbn. rewrite ET. reflexivity.
         * constructor; [exact I|constructor].
@@ -582,14 +587,15 @@ Section T3.
         unfold replay_req. cbn [negb]. apply coh_put'; assumption.
     - (* delete *)
       apply (TGT (RDelete i (c_uid c) (o_prop (sc_opts sc))) ok m st eq_refl); try assumption; try reflexivity.
-      + intros j Hj. destruct ALT as [[_ EC]|[_ EC]]; rewrite EC; [reflexivity|].
+      + intros j Hj. destruct ALT as [[_ EC]|[[_ EC]|[_ [EC _]]]]; rewrite EC; [reflexivity| |reflexivity].
         rewrite fo_del_cl. destruct (Nat.eqb i j) eqn:E; [apply Nat.eqb_eq in E; congruence|reflexivity].
       + split; [exact I|]. cbn [alias_free]. intros c' Hc' j x Hj Hx Ex.
         unfold fo in Hc0. fold i in Hc0. rewrite Hc0 in Hc'. injection Hc' as <-.
         destruct (N.eq_dec (c_uid c) 0) as [Z|Z]; [exact Z|]. exfalso. apply NAL.
         apply (HUF j (c_uid c)); [|exact Z]. rewrite <- Ex. apply (I_t _ _ _ _ _ I0 j x Hj Hx). congruence.
-      + destruct ALT as [[-> EC]|[-> EC]]; rewrite EC; [exact C1|].
-        unfold replay_req. cbn [negb]. apply coh_del. exact C1.
+      + destruct ALT as [[-> EC]|[[-> EC]|[-> [EC _]]]]; rewrite EC; [exact C1| |].
+        * unfold replay_req. cbn [negb]. apply coh_del. exact C1.
+        * unfold replay_req. cbn [negb]. apply coh_drop. exact C1.
   Qed.
 
   Lemma t_prune_task locals g layer td s : Forall (prune_ok pl) layer ->
